@@ -66,6 +66,8 @@ const (
 	epochIDLen = 8
 	// linux file name max length
 	fileNameMaxLen = 255
+	// a share-memory event carries two paths, each with a 2-byte length
+	maxShmMetadataEventLen = headerSize + 2*(2+65535)
 	// buffer path = %s_epoch_${epochID}_${randID}
 	// len("_epoch_") + maxUint64StrLength + len("_") + maxUint64StrLength
 	epochInfoMaxLen = 7 + 20 + 1 + 20
